@@ -205,9 +205,39 @@ func genSomeJID(r *hx.Rand) jid.JID {
 
 // ---- times ----
 
-var zones = []*time.Location{time.UTC, time.FixedZone("", 0), time.FixedZone("EST", -5*3600), time.FixedZone("IST", 5*3600+30*60),
-	time.FixedZone("", 14*3600), time.FixedZone("", -12*3600), time.FixedZone("LMT", 5*3600+30*60+15), time.FixedZone("", -(3*3600 + 7)),
-	time.FixedZone("", 45*60), time.FixedZone("", -59)}
+// zones: UTC and fixed zones with offsets of both signs x {whole hours, :30,
+// :45, :15, odd minutes, sub-minute seconds}, including -00:30 (sign carried by
+// the minutes alone) and the extremes of real zones (+14:00, -12:00) and of what
+// a two-digit hour field can carry.
+var zones = func() []*time.Location {
+	offs := []int{0,
+		-5 * 3600, 1 * 3600, 14 * 3600, -12 * 3600, 23 * 3600, -23 * 3600, // whole hours
+		5*3600 + 30*60, -(3*3600 + 30*60), -(9*3600 + 30*60), 30 * 60, -30 * 60, // :30
+		5*3600 + 45*60, 12*3600 + 45*60, -(8*3600 + 45*60), 45 * 60, -45 * 60, // :45
+		15 * 60, -15 * 60, -(4*3600 + 15*60), 13*3600 + 15*60, // :15
+		3600 + 7*60, -(2*3600 + 53*60), 60, -60, 23*3600 + 59*60, -(23*3600 + 59*60), // odd minutes
+		5*3600 + 30*60 + 15, -(3*3600 + 7), -(3*3600 + 30*60 + 20), -59, 59, 30, -(45*60 + 1), // sub-minute seconds
+	}
+	ls := []*time.Location{time.UTC}
+	for _, o := range offs {
+		ls = append(ls, time.FixedZone("", o))
+	}
+	return append(ls, time.FixedZone("EST", -5*3600), time.FixedZone("LMT", 5*3600+30*60+15))
+}()
+
+// zoneSweep: deterministic witnesses, one time per zone (alternating a whole
+// second and sub-second precision), for the corpus of every type carrying a time.
+func zoneSweep() []time.Time {
+	var ts []time.Time
+	for i, l := range zones {
+		if i%2 == 0 {
+			ts = append(ts, time.Unix(1185383397, 123456789).In(l))
+		} else {
+			ts = append(ts, time.Unix(1000, 0).In(l))
+		}
+	}
+	return ts
+}
 
 // genTime: zero value, epoch, sub-second precision, every kind of zone, and
 // (rarely) years RFC 3339 cannot express. inRange says whether the UTC year is
